@@ -95,13 +95,14 @@ static int draw_ostate(Draw &d, Case &c) { int r = (int)d.i(0, 9); int st = r < 
 static matrix *out_matrix(int state, int r, int cc) {
   matrix *m; if (state == 0) { initMatrix(&m); return m; }
   if (state == 2) { r += 1; cc = cc > 1 ? cc - 1 : cc + 2; }
-  NewMatrix(&m, (size_t)r, (size_t)cc); for (int i = 0; i < r; i++) for (int j = 0; j < cc; j++) m->data[i][j] = 7.25 + i - 0.5 * j;
+  NewMatrix(&m, (size_t)r, (size_t)cc); for (int i = 0; i < r; i++) for (int j = 0; j < cc; j++) m->data[i][j] = ((i + j) % 4 == 3) ? NAN : (7.25 + i - 0.5 * j) * 1e15;
   return m;
 }
 static dvector *out_vector(int state, int n) {
   dvector *v; if (state == 0) { initDVector(&v); return v; }
   if (state == 2) n += 2;
-  NewDVector(&v, (size_t)n); for (int i = 0; i < n; i++) v->data[i] = -3.5 + i;
+  // stale content that cannot hide: huge values and a NaN (anything the routine reads before writing it shows up)
+  NewDVector(&v, (size_t)n); for (int i = 0; i < n; i++) v->data[i] = (i % 3 == 1) ? NAN : (i % 2 ? -2.5e15 : 4e15);
   return v;
 }
 
@@ -264,6 +265,13 @@ static void gen_eig(Draw &d, Case &c) {
   int n = (int)d.sz(1, 12), fam = d.coin(50) ? SPD : SYM_INDEF;
   if (d.coin(10)) fam = DIAGONAL;
   M A = gen_square(d, n, fam, c.tags);
+  if (n >= 3 && d.coin(25)) {
+    // repeated eigenvalues (integer entries, exact): a*I + b*v*v' (+ a second rank-one term): eigenvalue a has multiplicity n-1 / n-2
+    auto v = d.ivec(n, -2, 2), w = d.ivec(n, -1, 1); int a = (int)d.i(0, 3), b = (int)d.i(1, 2); bool two = d.coin(40);
+    bool nz = false; for (auto x : v) if (x) nz = true; if (!nz) v[0] = 1;
+    for (int i = 0; i < n; i++) for (int j = 0; j < n; j++) A(i, j) = (double)((i == j ? a : 0) + b * v[i] * v[j] + (two ? w[i] * w[j] : 0));
+    c.tags.push_back("repeated-eigenvalues");
+  }
   c.p = {n, draw_ostate(d, c)}; put(c, A);
   c.nontrivial = n >= 3;
 }
@@ -277,9 +285,12 @@ static void pred_eig(const Case &c) {
   for (int k = 0; k < n; k++) {
     V v(n); for (int i = 0; i < n; i++) v[i] = evec->data[i][k];
     ld nv = norm2(v);
-    VF_CHECK(std::isfinite((double)nv) && nv > 0.5L && nv < 2, "EVectEval: eigenvector %d has norm %.3Lg", k, nv);
+    // an eigenvector need not be a unit vector, but it has to be a vector: not null, and A v = lambda v RELATIVE to its own length
+    // (for a repeated eigenvalue a general-matrix solver may return the real part of a complex pair, shorter than 1 - or numerically null)
+    VF_CHECK(std::isfinite((double)nv) && nv < 2, "EVectEval: eigenvector %d has norm %.3Lg", k, nv);
+    VF_CHECK(nv > 1e-3L, "EVectEval: eigenvector %d is (numerically) the null vector: norm %.3Lg (n=%d)", k, nv, n);
     V Av = matvec(A, v); ld r = 0; for (int i = 0; i < n; i++) { ld e = Av[i] - eval->data[k] * v[i]; r += e * e; }
-    VF_CHECK(sqrtl(r) <= tol, "EVectEval: |A v - lambda v| = %.3Lg > tol %.3Lg for pair %d (n=%d)", sqrtl(r), tol, k, n);
+    VF_CHECK(sqrtl(r) <= tol * nv, "EVectEval: |A v - lambda v| = %.3Lg > tol %.3Lg * |v| for pair %d (n=%d, |v| = %.3Lg)", sqrtl(r), tol, k, n, nv);
   }
   V ev; M E; jacobi_eig(A, ev, E);
   std::vector<double> got(eval->data, eval->data + n); std::sort(got.begin(), got.end(), [](double x, double y) { return x > y; });
